@@ -34,6 +34,8 @@ func init() {
 			r := t.crc(t.curSt, a, tInt(0))
 			return &Val{T: r, KnownLen: -1}, true
 		},
+		"sort.SliceStable": sortModel,
+		"sort.Slice":       sortModel,
 		"sync/atomic.LoadPointer":  atomicLoad,
 		"sync/atomic.StorePointer": atomicStore,
 		"sync/atomic.CompareAndSwapPointer": func(t *Tr, instr ssa.Instruction, cc *ssa.CallCommon, pos token.Pos) (*Val, bool) {
@@ -278,4 +280,34 @@ func readOnlyUses(v ssa.Value, depth int) bool {
 		}
 	}
 	return true
+}
+
+// sortModel: sort.Slice / sort.SliceStable permute the elements of the slice held by their first argument.
+func sortModel(t *Tr, instr ssa.Instruction, cc *ssa.CallCommon, pos token.Pos) (*Val, bool) {
+	mi, ok := cc.Args[0].(*ssa.MakeInterface)
+	if !ok {
+		return nil, false
+	}
+	sl, ok := mi.X.Type().Underlying().(*types.Slice)
+	if !ok {
+		return nil, false
+	}
+	c := t.c
+	st := t.curSt
+	s := t.term(mi.X)
+	comp := t.regElem(sl.Elem())
+	mem := c.get(st, comp)
+	old := sel(mem, sArr(s))
+	nw := c.fresh("sorted", old.Sort)
+	q, r := sym("q!i"), sym("q!j")
+	// every element of the result is an element of the input, and the other way round; nothing outside the window changes
+	c.assert(Term{fmt.Sprintf("(forall ((%s Int)) (! (=> (and (<= %s %s) (< %s (+ %s %s))) (exists ((%s Int)) (and (<= %s %s) (< %s (+ %s %s)) (= (select %s %s) (select %s %s))))) :pattern ((select %s %s))))",
+		q, sOff(s).S, q, q, sOff(s).S, sLen(s).S, r, sOff(s).S, r, r, sOff(s).S, sLen(s).S, nw.S, q, old.S, r, nw.S, q), SBool})
+	c.assert(Term{fmt.Sprintf("(forall ((%s Int)) (! (=> (and (<= %s %s) (< %s (+ %s %s))) (exists ((%s Int)) (and (<= %s %s) (< %s (+ %s %s)) (= (select %s %s) (select %s %s))))) :pattern ((select %s %s))))",
+		q, sOff(s).S, q, q, sOff(s).S, sLen(s).S, r, sOff(s).S, r, r, sOff(s).S, sLen(s).S, old.S, q, nw.S, r, old.S, q), SBool})
+	c.assert(Term{fmt.Sprintf("(forall ((%s Int)) (! (=> (or (< %s %s) (>= %s (+ %s %s))) (= (select %s %s) (select %s %s))) :pattern ((select %s %s))))",
+		q, q, sOff(s).S, q, sOff(s).S, sLen(s).S, nw.S, q, old.S, q, nw.S, q), SBool})
+	t.c.set(st, comp, store(mem, sArr(s), nw))
+	t.trusted["sort.Slice/SliceStable permute the slice (the comparison closure is not interpreted)"] = true
+	return nil, true
 }
